@@ -319,6 +319,7 @@ def h_concrete_layouts(ctx, layout):
         X = L(rng.uniform(-1, 1, size=(12, 3)))
         Ac = teneva.func_int([L(G) for G in teneva.rand([3, 3, 3], 2, seed=9)])
         teneva.als_func(X, L(rng.normal(size=12)), Ac, nswp=1)
+        teneva.als_func(X, L(rng.normal(size=12)), Ac, nswp=1, n_max=3); teneva.als_func(X, L(rng.normal(size=12)), Ac, nswp=1, n_max=5)
         teneva.anova_func(X[:, :2], L(rng.normal(size=12)), 3)
         Y1 = [L(rng.normal(size=(1, 4, 1))), L(rng.normal(size=(1, 4, 1)))]
         Xn = L(np.cos(np.pi * np.arange(4) / 3))
@@ -357,6 +358,7 @@ def instances(tier):
         ('harness.c07', 'h_sweeps', {'d': 2, 'n': 2, 'r': 1, 'I': [[0, 0], [1, 1]], 'weighted': True, 'nswp': 1}),
         ('harness.c07', 'h_adaptive', {'n': 2, 'r0': 2, 'r': 2, 'r_add': 0, 'I': None, 'allow_swap': True, 'structured': True}),
         ('harness.c15', 'h_func_beam', {'n': [2, 2], 'k': 1}),
+        ('harness.c07', 'h_func', {'m': 2, 'n': 2, 'fixed_cores': True, 'y_last': 1, 'n_max': 2}),
         ('harness.c05', 'h_exact', {'n': [2, 2], 'rho': 1, 'r0': 1, 'dr': [0, 0], 'nswp': 1, 'choices': 'first'}),
         ('harness.c16', 'h_norm', {'n': [2, 1], 'r': 1}),
         ('harness.c17', 'h_core_roundtrip_q1', {'r1': 1, 'r2': 2}),
